@@ -39,7 +39,7 @@ Ring == { D(op, n, rs, as, 62, 62, k, 11) :
 NormWide == UNION { { D(op, n, rs, as, rb, ab, k, 14) :
                         op \in {"big_normalize", "big_normalize_add_assign", "big_normalize_sub_assign", "big_normalize_negate"},
                         k \in {0, 1, ab \div 2, ab - 1, ab, ab + 1, -1, 1 - ab, -ab} }
-                    : n \in Ns, rs \in S, as \in S, rb \in Bs, ab \in Bs }
+                    : n \in (Ns \ {1}), rs \in {3, 4, 6}, as \in {2, 4}, rb \in Bs, ab \in Bs }
 Descs == NormWide \cup Shifts \cup ShiftAssign \cup Norm1 \cup NormAssign \cup Ring
 
 ASSUME ndJsonSerialize(IOEnv.OUT, SetToSeq(Descs))
